@@ -119,6 +119,7 @@ RawOK(r) ==
     /\ \A i \in DOMAIN r.co : r.co[i] = ByStamp(Out(i - 1))
     /\ \A i \in DOMAIN r.ci : r.ci[i] = ByStamp(In(i - 1))
 PairOK(p) ==
+    /\ p.adj = (IF NLive(p.a) /\ NLive(p.b) THEN <<"b", Conn(p.a, p.b) # {}>> ELSE <<"none">>)      \* adjacency_matrix + is_adjacent
     /\ FindEdgeOK(p.a, p.b, p.fe)
     /\ p.ce = (Conn(p.a, p.b) # {})
     /\ FindEdgeUndOK(p.a, p.b, p.fu)
